@@ -10,16 +10,16 @@ import (
 // resolved by class-hierarchy analysis over the module's named types.
 
 type CallSite struct {
-	Caller   *Func
-	Call     *ast.CallExpr
-	Node     *Node  // CFG node in the caller
-	Kind     string // "call", "go", "defer"
-	Callees  []*Func
-	Full     string // full name of the static callee ("" if dynamic)
-	Dynamic  bool   // call through a func value that is not a literal
-	IsIface  bool
-	ViaOnce  bool   // literal passed to sync.Once.Do (runs synchronously)
-	ArgLits  []*Func // function literals passed as arguments
+	Caller  *Func
+	Call    *ast.CallExpr
+	Node    *Node  // CFG node in the caller
+	Kind    string // "call", "go", "defer"
+	Callees []*Func
+	Full    string // full name of the static callee ("" if dynamic)
+	Dynamic bool   // call through a func value that is not a literal
+	IsIface bool
+	ViaOnce bool    // literal passed to sync.Once.Do (runs synchronously)
+	ArgLits []*Func // function literals passed as arguments
 }
 
 type callIndex struct {
